@@ -71,6 +71,8 @@ def build_tracking_series(case):
         d = displacement_field(rng, case.get("field", "random"), base.topo.J + disp[-1], bound)
         disp.append(disp[-1] + (d.real + 1j * d.imag / st))      # the bound refers to physical displacements
     frames = statics.build_series(case, n, disp=disp, renumber=case.get("renumber", True))
+    if frames is None:
+        return None
     s = Series()
     s.case, s.frames_sc, s.bound, s.spacing, s.ext = case, frames, bound, spacing, ext
     # time stamps: arbitrary increasing
